@@ -74,6 +74,16 @@ Cfg ==
          aux    |-> { [ty |-> "", e |-> Bin("alt", S(b), S(a))] },
          ws     |-> {"none", "_"},  cm |-> {"none"},
          sigma  |-> {97, 98, 32},  len |-> 3]
+    [] BaseSlice = "wsov" ->    \* WHITESPACE and COMMENT that can start on the same character: the ORDER of the implicit
+                                \* skip (WHITESPACE* ~ (COMMENT ~ WHITESPACE*)*) becomes observable
+        [leaves |-> {S(a), S(b), Id("r1")},
+         unary  |-> {"opt", "rep", "rep1"},
+         binary |-> {"seq", "alt"},
+         size   |-> 3,
+         tyM    |-> {"", "$"},
+         aux    |-> { [ty |-> "", e |-> Bin("seq", S(a), S(b))] },
+         ws     |-> {"", "_"},  cm |-> {"", "_"},
+         sigma  |-> {97, 98, 32, 35},  len |-> 4]
     [] BaseSlice = "core" ->
         [leaves |-> {S(a), S(b), Id("ANY"), Id("EOI"), Id("r1"), S(<<>>)},
          unary  |-> {"opt", "rep", "rep1", "not", "and"},
@@ -169,7 +179,11 @@ RestoreExprs ==
                     ELSE {})
       Post == { Id("PEEK_ALL"), Bin("seq", Id("POP"), Id("POP")), [t |-> "peek", lo |-> 0, hi |-> 1, open |-> FALSE],
                 Bin("seq", Id("DROP"), Id("DROP")), Id("POP_ALL") }
+      \* the same inside a look-ahead: the predicate's verdict depends on the stack the absorbed failure left
+      LPost == { Id("PEEK"), Id("PEEK_ALL"), Bin("seq", Id("POP"), Id("POP")) }
   IN UNION { { Bin("seq", pre, Bin("seq", w, post)) : pre \in Pre, w \in W(f), post \in Post } : f \in F }
+     \cup UNION { { Bin("seq", pre, Bin("seq", Un(p, Bin("seq", w, post)), Un("rep", Id("ANY")))) :
+                     pre \in Pre, w \in W(f), post \in LPost, p \in {"and", "not"} } : f \in F }
 
 PushWsExprs ==
   LET X == { Bin("seq", S(a), S(a)), Bin("seq", Id("r1"), Id("r1")), Un("rep", S(a)), Un("rep1", S(a)),
@@ -204,9 +218,16 @@ Exprs == CASE Slice = "skip"   -> SkipExprs(MaxSize)
 
 \* WHITESPACE / COMMENT bodies: a literal, or (wb = "rule") a call of a non-silent helper rule, which
 \* makes the difference between @ and $ skip rules observable
-WsRule(ty, wb) == [ty |-> ty, e |-> IF wb = "rule" THEN Id("w1") ELSE S(sp)]
-CmRule(ty, wb) == [ty |-> ty, e |-> IF wb = "rule" THEN Bin("seq", S(hash), Un("opt", Id("w2"))) ELSE S(hash)]
-WBodies == IF BaseSlice = "ws" THEN {"lit", "rule"} ELSE {"lit"}
+\* wb = "ov": COMMENT = " #" | "##" and WHITESPACE = " " | "#" overlap on their first characters
+\* wb = "seq": bodies that are sequences / repetitions starting with something that can match empty - the places
+\* where an implementation that did NOT make the body atomic would skip implicitly inside the skip rule itself
+WsRule(ty, wb) == [ty |-> ty, e |-> CASE wb = "rule" -> Id("w1") [] wb = "ov" -> Bin("alt", S(sp), S(hash))
+                                      [] wb = "seq" -> Bin("seq", Un("opt", S(hash)), S(sp)) [] OTHER -> S(sp)]
+CmRule(ty, wb) == [ty |-> ty, e |-> CASE wb = "rule" -> Bin("seq", S(hash), Un("opt", Id("w2")))
+                                      [] wb = "ov" -> Bin("alt", S(<<32, 35>>), S(<<35, 35>>))
+                                      [] wb = "seq" -> Bin("seq", Un("rep", S(a)), S(hash))
+                                      [] OTHER -> S(hash)]
+WBodies == CASE BaseSlice = "ws" -> {"lit", "rule", "seq"} [] BaseSlice = "wsov" -> {"ov"} [] OTHER -> {"lit"}
 
 Grammars ==
   { [m |-> [ty |-> tm, e |-> e], r1 |-> aux, ws |-> w, cm |-> c, wb |-> wb] :
